@@ -49,9 +49,16 @@ def _comparison(w, c):
 
 
 def _tree(w, t):
-    conds = [w.el('Condition', children=[w.el('ParameterInstanceRef', {'parameterRef': a}),
-                                         w.el('ComparisonOperator', text=op), w.el('Value', text=lit)])
-             for a, op, lit in t['c']]
+    conds = []
+    for c in t['c']:
+        if len(c) == 3:
+            conds.append(w.el('Condition', children=[w.el('ParameterInstanceRef', {'parameterRef': c[0]}),
+                                                     w.el('ComparisonOperator', text=c[1]), w.el('Value', text=c[2])]))
+        else:
+            conds.append(w.el('Condition', children=[
+                w.el('ParameterInstanceRef', {'parameterRef': c[0], 'useCalibratedValue': str(c[3]).lower()}),
+                w.el('ComparisonOperator', text=c[1]),
+                w.el('ParameterInstanceRef', {'parameterRef': c[2], 'useCalibratedValue': str(c[4]).lower()})]))
     subs = [_tree(w, s) for s in t['s']]
     return w.el('ANDedConditions' if t['k'] == 'and' else 'ORedConditions', children=conds + subs)
 
